@@ -374,6 +374,10 @@ func snapCache(cacheDir string) (objs []CObj, stray []string) {
 					b, err := os.ReadFile(sp)
 					must(err)
 					objs = append(objs, CObj{e.Name() + s.Name(), b, uint32(fi.Mode().Perm())})
+				} else if len(s.Name()) == 62 {
+					// named like an object but not a regular file (a link, a directory, a pipe): an
+					// object that cannot have the bytes its name promises
+					objs = append(objs, CObj{e.Name() + s.Name(), nil, 0})
 				} else {
 					stray = append(stray, e.Name()+"/"+s.Name())
 				}
